@@ -64,7 +64,7 @@ TimingViews ==
               : f \in { g \in [1..n -> UNION { TShapes(j) : j \in 1..n }] : \A i \in 1..n : g[i] \in TShapes(i) } }
           : n \in 0..MaxN, ed \in {Nil, Some(T0)} }
 
-Alphabet == {32, 9, 160, 40, 41, 60, 62, 97}
+Alphabet == {32, 9, 10, 160, 40, 41, 60, 62, 97}      \* space tab newline nbsp ( ) < > a
 Texts == UNION { [1..k -> Alphabet] : k \in 0..MaxLen }
 DurShape == TShape("payload", Some(20), Nil, Nil, Nil, Nil)
 
